@@ -65,6 +65,8 @@ func genC11Facts() (string, string) {
 		{"c11_body_envFileIndexer", funcBody(parse("override/uncity.go"), "", "envFileIndexer")},
 		{"c11_body_enforceUnicity", funcBody(parse("override/uncity.go"), "", "enforceUnicity")},
 	}
+	// round 7: the merge of a short-syntax build must not complete it with a default (Props/C11Merge.lean)
+	entries = append(entries, struct{ name, body string }{"c11_body_mergeBuild", funcBody(parse("override/merge.go"), "", "mergeBuild")})
 	// the tail of loader.load: `name` forced to the resolved project name, then Normalize (Pipeline.finishLoad)
 	entries = append(entries, struct{ name, body string }{"c11_stmt_load_normalize", c11GuardedBlock(parse("loader/loader.go"), "load", "!opts.SkipNormalization")})
 	for _, e := range entries {
